@@ -213,6 +213,10 @@ Arguments CPair {T} _ _ _.
 Arguments CCount {T}.
 Arguments CPtr {T} _.
 Arguments COther {T}.
+Arguments MFold {T} _ _ _ _ _ _ _ _.
+Arguments MCount {T} _.
+Arguments MBFold {T} _ _ _ _ _.
+Arguments MCond {T} _ _ _.
 Arguments AVal {T} _.
 Arguments ANat {T} _.
 Arguments APtr {T} _.
